@@ -250,8 +250,15 @@ func (maps *trackedMaps) processUnfiltered(ctx context.Context, ef *Filter, filt
 				default:
 					for i := 0; i < field.Len(); i++ {
 						f := field.Index(i)
+						if isNilValue(f) {
+							// nothing to filter in a nil element
+							continue
+						}
 						if f.Kind() == reflect.Interface {
 							f = f.Elem()
+						}
+						if isNilValue(f) {
+							continue
 						}
 						if f.Kind() == reflect.Ptr {
 							f = f.Elem()
